@@ -3,6 +3,6 @@ CONSTANTS
   W = 10
   Vals = {1, 2, 3}
   NoVal = 0
-  MaxLen = 60
-  Deep = FALSE
+  MaxLen = 110
+  Deep = TRUE
 CHECK_DEADLOCK FALSE
